@@ -169,6 +169,26 @@ def r18c(run):
     run.check("R18c", i, "the generated __init__ picks up the context attached by init_dataclass", uses and sets,
               construct="__context__ hand-over", message="init_dataclass / generated __init__ no longer hand the "
               "context over through __context__", necessity="nested instances would be parsed in a fresh context")
+    # every other __init__ that make_init installs: a declared (custom) __init__ is wrapped by the function parser, whose
+    # per-call wrapper makes its own context
+    mi = run.repo.func("utype.parser.cls", "ClassParser.make_init")
+    ma = analysis(mi)
+    wraps_ = [(n, n.ast.value) for n in ma.cfg.nodes if n.kind == "stmt" and isinstance(n.ast, ast.Assign)
+              and unparse(n.ast.targets[0]) == "__init__" and isinstance(n.ast.value, ast.Call)
+              and call_attr(n.ast.value) == "wrap"]
+    if wraps_:
+        w = run.repo.func("utype.parser.func", "FunctionParser.wrap.f")
+        takes = any(isinstance(x, ast.Constant) and x.value == "__context__" for x in ast.walk(w.node)) or any(
+            isinstance(x, ast.Attribute) and x.attr == "__context__" for x in ast.walk(w.node))
+        for n, c in wraps_:
+            run.check("R18c", mi, "a declared __init__ is parsed in the context attached by init_dataclass", takes,
+                      construct="declared __init__ parsed in a context without parent",
+                      message=f"ClassParser.make_init installs `{unparse(c)[:60]}` for a class that declares its own "
+                              f"__init__: the wrapper (FunctionParser.wrap) creates a fresh context per call and never "
+                              f"reads the instance's __context__",
+                      necessity="every nested instance of such a class starts at depth 0: max_depth never triggers, a "
+                                "cyclic input recurses until the interpreter's stack limit through three union stages "
+                                "per level (does not return)", node=c)
 
 
 def _flag_env_eval(e, env: Dict[str, bool], resolve=None) -> Optional[bool]:
@@ -464,6 +484,12 @@ def r18i(run, rule="R18i"):
                 why = "the caller's options under override" if ok else f"the caller's options under {sorted(facts)}"
             else:
                 ok, why = False, f"`{txt}`"
+                # the one admissible combination: the class's own options plus the *conversion flags* of the creating
+                # context (what a repair of F34 / R18e would do) - nothing else of the caller's options
+                if isinstance(e, ast.BinOp) and isinstance(e.op, ast.BitAnd) and unparse(e.left) == "self" \
+                        and isinstance(e.right, ast.Call) and not e.right.args and e.right.keywords \
+                        and all(k.arg in ("no_data_loss", "no_explicit_cast") for k in e.right.keywords):
+                    ok, why = True, "the declared options plus the creating context's conversion flags"
             run.check(rule, f, f"the context of a (nested) parse carries {why}", ok,
                       construct=f"make_context hands out {txt[:50]}",
                       message=f"Options.make_context: the new context's options can be `{txt}` "
@@ -497,8 +523,29 @@ def r18i(run, rule="R18i"):
     run.floor(rule, "parser context factories", n_fact, 2)
 
 
+def r18j(run):
+    """the options a class is decorated with reach its nested self-references only if the decorator hands back the class
+    it was given: a self-reference inside the class body resolves to the class object the parser was built for"""
+    f = run.repo.func("utype.parser.options", "Options.__call__")
+    fa = analysis(f)
+    subst = [x for x in ast.walk(f.node) if isinstance(x, ast.ClassDef)]
+    arg = f.params[1] if len(f.params) > 1 else "fn"
+    for c in subst:
+        returned = any(n.kind == "stmt" and isinstance(n.ast, ast.Return) and unparse(n.ast.value) == c.name for n in fa.cfg.nodes)
+        based = any(unparse(b) == arg for b in c.bases)
+        run.check("R18j", f, "Options(...) used as a class decorator configures the class it was given", not (returned and based),
+                  construct="class decorator returns a substitute subclass",
+                  message=f"Options.__call__ returns `class {c.name}({arg})`: a subclass carrying the options, while "
+                          f"self-references inside `{arg}` ('Node' in Optional['Node']) resolve to `{arg}` itself, whose "
+                          f"__options__ are the undecorated ones",
+                  necessity="@Options(max_depth=3) class Node(Schema): child: Optional['Node']: only the top level is "
+                            "limited; nested levels are the undecorated class without max_depth - depth 8 is accepted and "
+                            "a cyclic input does not return", node=c)
+    run.ob("R18j", f, "decorator form of Options examined", True, nontrivial=False, detail=f"{len(subst)} substitute classes")
+
+
 def check(run):
-    run.rules_run += ["R18a", "R18b", "R18c", "R18d", "R18e", "R18f", "R18g", "R18h", "R18i"]
+    run.rules_run += ["R18a", "R18b", "R18c", "R18d", "R18e", "R18f", "R18g", "R18h", "R18i", "R18j"]
     run.explain("C18: (R18a) the route parameter of RuntimeContext is tested None-exactly, depth is inherited, "
                 "incremented by one on the no-route branch only and compared with `>`; (R18b) every context.enter site "
                 "passes a non-None route and enter() chains context/route/options; (R18c) data-class contexts are "
@@ -515,6 +562,7 @@ def check(run):
     r18g(run)
     r18h(run)
     r18i(run)
+    r18j(run)
     # shared with C10: with collect_errors the depth error is only recorded; the limit rejects at every position only if
     # each context owner passes raise_error() before it returns
     from . import c04, c10
